@@ -391,7 +391,18 @@ fn and3(v: &[Tri]) -> Tri {
 
 impl Eval {
     fn of(a: &Ast, o: &ORq) -> Eval {
-        Eval { ty: type_clause(a, o), party: party_clause(a, o), domain: domain_clause(a, o), scheme: scheme_clause(a, o), pattern: pattern_clause(a, o) }
+        let mut e = Eval { ty: type_clause(a, o), party: party_clause(a, o), domain: domain_clause(a, o), scheme: scheme_clause(a, o), pattern: pattern_clause(a, o) }
+        ;
+        // `|ws://` is read by this code base as "any websocket request" (its own test-suite pins
+        // the content-blocking translation `^wss?://`): against a wss:// URL, or combined with an
+        // explicit type list, the property text does not say which reading is right => Unspecified.
+        if let Form::Pinned(s) = &a.form {
+            if s == "ws" && is_ws(o) && (o.scheme == Scheme::Wss || a.pos != 0 || a.neg != 0) {
+                e.scheme = true;
+                e.ty = Tri::Unspec;
+            }
+        }
+        e
     }
     /// applies(rule, request) for a supported scheme
     fn applies(&self) -> Tri {
@@ -1374,7 +1385,7 @@ fn check(ctx: &Ctx) -> i32 {
 
     ctx.finish(
         "model_checking",
-        "A: 6 pattern forms x every purely positive and purely negated list over the 11 type atoms (quick: 2048 positive + 63 negated over 6 atoms) x with/without document x 7 party spellings x exception x important, each against 25 type strings x 6 schemes x {third-party, first-party, absent} initiators (scheme-pinned forms additionally against a URL carrying http/https/ws as path tokens); B: 79 ordered domain lists over {a.com, sub.a.com, b.com} x domain=/from= x party x 4 type lists x {ads, *} x exception, against 6 initiators x first-/third-party host x 4 schemes x 4 types; C: full-regex literal rules x match-case x option, against URL case variants, plus match-case on non-regex rules; D: 18 option spellings singly and in pairs, all option orders of 4 option sets. Every rule is evaluated with NetworkFilter::matches and on a single-rule engine. A case is non-trivial when the reference or the implementation says the rule applies; states = rules parsed + engines built, transitions = (rule, request, observation point) executions, traces_validated = executions compared with the reference.",
+        "A: 6 pattern forms x every purely positive and purely negated list over the 11 type atoms (quick: 2048 positive + 63 negated over 6 atoms) x with/without document x 7 party spellings x exception x important (thorough: options also in reversed order), each against 25 type strings x 6 schemes x {third-party, first-party, absent} initiators (scheme-pinned forms additionally against a URL carrying http/https/ws as path tokens, 6 type strings); B: 79 ordered domain lists over {a.com, sub.a.com, b.com} x domain=/from= x party x 4 (thorough 10) type lists x {ads, *} x exception, against 6 initiators x first-/third-party host x 4 schemes x 4 types; C: full-regex literal rules x match-case x option, against URL case variants, plus match-case on non-regex rules; D: 18 option spellings singly and in pairs, all option orders of 4 option sets. Every rule is evaluated with NetworkFilter::matches and on a single-rule engine. A case is non-trivial when the reference or the implementation says the rule applies; states = rules parsed + engines built, transitions = (rule, request, observation point) executions, traces_validated = executions compared with the reference.",
         &[
             "Unspecified (executed, not compared): mixed positive+negated type lists; positive domain= list or party option with an absent initiator; request type strings csp_report and unknown ('fetch'); unsupported schemes at matcher level (asserted at the engine only)",
             "exception rules are observed on single-rule engines through check_network_request_subset(req, true, true), blocking rules through check_network_request",
